@@ -11,16 +11,19 @@
 EXTENDS KmipProps, Json
 
 CONSTANTS
-    Menu(_),        \* store state -> set of requests offered in that state
+    Menu(_),        \* store state -> set of request descriptors offered in that state
+    MkReq(_),       \* descriptor -> request (Identity where the menu holds requests)
     Pols,           \* operation policies in force
     MaxDepth,       \* bound on the number of requests in a history
     MaxObjs,        \* bound on identifiers handed out
     \* negative-control switches (TRUE = the mechanism is in place)
     AUTOINC,        \* identifiers come from the AUTOINCREMENT high-water mark
     RESET_PH,       \* the ID placeholder is reset at the start of a request
+    RESTARTS,       \* server restarts are part of the histories
     Checked         \* the clauses a configuration checks (others are checked by their own configurations)
 
 NoClauses == {}
+Identity(x) == x
 
 VARIABLES st, g, ev, depth
 vars == <<st, g, ev, depth>>
@@ -49,6 +52,7 @@ DoRequest(r) ==
     /\ depth' = depth + 1
 
 DoRestart ==
+    /\ RESTARTS
     /\ depth < MaxDepth
     /\ st.ph # NoUid
     /\ st' = Restart(st)
@@ -56,7 +60,7 @@ DoRestart ==
     /\ UNCHANGED g
     /\ depth' = depth + 1
 
-Next == (\E r \in Menu(st) : DoRequest(r)) \/ DoRestart
+Next == (\E d \in Menu(st) : DoRequest(MkReq(d))) \/ DoRestart
 
 Spec == Init /\ [][Next]_vars
 
@@ -124,10 +128,12 @@ PCreate(mask, extra) == [otype |-> "SymmetricKey", attrs |-> SymAttrs(mask, extr
 PRegister(t, mask, extra) ==
     [otype |-> t, hasobj |-> TRUE,
      attrs |-> (IF HasMask(t) THEN <<A("Cryptographic Usage Mask", mask)>> ELSE <<>>) \o extra,
-     obj |-> [type |-> t, val |-> "k16", vlen |-> 16,
-              alg |-> IF t = "SymmetricKey" THEN "AES" ELSE IF HasAlg(t) THEN "RSA" ELSE "NA",
-              len |-> IF t = "SymmetricKey" THEN 128 ELSE IF HasAlg(t) THEN 1024 ELSE 0,
-              fmt |-> IF t = "SymmetricKey" THEN "RAW" ELSE IF t = "PublicKey" THEN "PKCS_1" ELSE IF t = "PrivateKey" THEN "PKCS_8" ELSE "NA",
+     obj |-> [type |-> t,
+              val |-> IF t = "PublicKey" THEN "rsapub" ELSE IF t = "PrivateKey" THEN "rsapriv" ELSE "k16",
+              vlen |-> 16,
+              alg |-> IF t \in {"SymmetricKey", "SplitKey"} THEN "AES" ELSE IF HasAlg(t) THEN "RSA" ELSE "NA",
+              len |-> IF t \in {"SymmetricKey", "SplitKey"} THEN 128 ELSE IF HasAlg(t) THEN 1024 ELSE 0,
+              fmt |-> IF t \in {"SymmetricKey", "SplitKey"} THEN "RAW" ELSE IF t = "PublicKey" THEN "PKCS_1" ELSE IF t = "PrivateKey" THEN "PKCS_8" ELSE "NA",
               sub |-> IF t = "Certificate" THEN "X_509" ELSE IF t = "SecretData" THEN "PASSWORD" ELSE IF t = "OpaqueData" THEN "NONE" ELSE "NA",
               wrapped |-> FALSE]]
 PUid(u) == [uid |-> u]
